@@ -281,4 +281,18 @@ def calcMultiLayer [DecidableEq β] (nil zero : β) (H2 : β → β → β) (ncp
         let r := GetMerkleRoot nil H2 ncpu (cs.map (·.hash))
         if r = nil then .panic else .ok (r, cs)
 
+/-! ### the duplicate-transaction check of block validation (util/exec.go `DelDupTx`, util/util.go `PreExecBlock`) -/
+
+/-- `util.DelDupTx` on the list of transaction hashes: of several equal hashes only the last
+occurrence is kept (the Go code records the last index of every hash and keeps `i == lastindex`). -/
+def delDupTx [DecidableEq β] : List β → List β
+  | [] => []
+  | x :: xs => if x ∈ xs then delDupTx xs else x :: delDupTx xs
+
+/-- `PreExecBlock` on a peer block (`errReturn`, `ForkCheckTxDup` active, `DisableTxDupCheck`
+off): `len(block.Txs) != len(cacheTxs)` after `CheckTxDup` gives `ErrTxDup`. Only the in-block
+part of the check (`DelDupTx`) is modelled; hashes already on chain are removed as well in Go. -/
+def dupRejected [DecidableEq β] (txHashes : List β) : Bool :=
+  (delDupTx txHashes).length != txHashes.length
+
 end C18
